@@ -170,6 +170,9 @@ class C19(Check):
                     for nc in c["ranks"]:
                         for off in c["offs"]:
                             gs.append({"est": "plsr", "n": n, "xd": list(xd), "yd": list(yd), "nc": nc, "off": off})
+                            if nc == c["ranks"][-1] and off == c["offs"][0] and n == c["ns"][0]:
+                                # as many components as samples (rank-excessive request): unit-norm loadings and transform == scores still hold
+                                gs.append({"est": "plsr", "n": n, "xd": list(xd), "yd": list(yd), "nc": n, "off": off})
                             if len(xd) >= 2 and off == c["offs"][0]:
                                 # structured data: one channel of the last sample mode is identically zero (zero padding, a dead sensor)
                                 gs.append({"est": "plsr", "n": n, "xd": list(xd), "yd": list(yd), "nc": nc, "off": off, "zero_channel": True})
